@@ -273,7 +273,7 @@ def run(cx):
         for i in sorted(set(i for i, _ in tol)):
             st["tolerated"].append(by_id[i])
         for c in cases:
-            if c["kind"] == "graph" and c.get("nt") and len(st["samples_g"]) < 2:
+            if c["kind"] == "graph" and c.get("nt") and c.get("st") == "ok" and len(st["samples_g"]) < 2 and c["id"] % 97 == 3:
                 st["samples_g"].append(c)
             if c["kind"] == "path" and nontrivial(c) and len(st["samples_p"]) < 2 and c["id"] % 977 == 5:
                 st["samples_p"].append(c)
@@ -300,15 +300,22 @@ def run(cx):
                 st["overrejected"] += 1      # the parser refused an import the design accepts: never unsafe
                 continue
             desc = describe(c, which, kind, exp, o)
-            key = desc.split(";")[0]
+            key = "%s [%s importer, %s cases]" % (desc.split(" [")[0], which, c["kind"])
             st["reported"][key] = st["reported"].get(key, 0) + 1
-            if st["reported"][key] <= 4:
+            if st["reported"][key] <= 3:
                 cx.violation(desc, {"case": c, "importer": which, "kind": kind, "expected": exp,
                                     "observed": obs2[i], "source": obs2[i].get("src")})
 
-    def batches(cases, tag, size=120000):
-        for k in range(0, len(cases), size):
-            process(cases[k:k + size], tag if len(cases) <= size else "%s%d" % (tag, k // size))
+    pending = []
+
+    def batches(cases, tag, size=150000, flush=False):
+        """Collect cases and process them in batches (one batch in the quick tier: JVM starts dominate)."""
+        pending.extend(cases)
+        while len(pending) >= size or (flush and pending):
+            part = pending[:size]
+            del pending[:size]
+            st["batch"] = st.get("batch", 0) + 1
+            process(part, "b%d" % st["batch"])
 
     # ---- legs M + G, module graphs: exhaustive within each bound set
     mc_stats = {}
@@ -338,7 +345,7 @@ def run(cx):
     cx.tlc_must_pass(r, "ImportsMC simulation")
     n_sim = harvest(r, cases, set())
     cases += random_path_cases(rng, nrand, encs)
-    batches(cases, "random")
+    batches(cases, "random", flush=True)
 
     for key, n in st["reported"].items():
         cx.log("violations: %d x %s" % (n, key))
